@@ -63,7 +63,7 @@ func c11Scenarios(tier string) []*Scenario {
 		}
 	}
 	gen(nil)
-	loggers := []string{"none", "proc", "unified", "proc-flush"}
+	loggers := []string{"none", "proc", "unified", "proc-flush", "proc-num"}
 	for _, seq := range seqs {
 		for _, errMode := range []string{"none", "line", "nonl"} {
 			for _, restarts := range []int{0, 1} {
@@ -79,6 +79,9 @@ func c11Scenarios(tier string) []*Scenario {
 						if lg != "none" && restarts == 1 && li > 1 {
 							continue
 						}
+					}
+					if lg == "proc-num" && (len(seq) > 1 || errMode != "none") {
+						continue // the documented {PC_REPLICA_NUM} placeholder in the file name of a single replica
 					}
 					scs = append(scs, c11Scenario(seq, errMode, restarts, lg))
 				}
@@ -217,6 +220,8 @@ func c11Scenario(seq []int, errMode string, restarts int, lg string) *Scenario {
 		pc.Lines = append(pc.Lines, "log_location: \"@DIR@/a.log\"")
 	case "proc-flush":
 		pc.Lines = append(pc.Lines, "log_location: \"@DIR@/a.log\"", "log_configuration:", "  flush_each_line: true")
+	case "proc-num":
+		pc.Lines = append(pc.Lines, "log_location: \"@DIR@/a.{PC_REPLICA_NUM}.log\"")
 	case "unified":
 		global = append(global, "log_location: \"@DIR@/all.log\"")
 	}
@@ -393,6 +398,9 @@ func c11Check(w *World, wantOut, wantErr []string, lg string, ids []string) []Vi
 		fn := filepath.Join(w.dir, "a.log")
 		if lg == "unified" {
 			fn = filepath.Join(w.dir, "all.log")
+		}
+		if lg == "proc-num" {
+			fn = filepath.Join(w.dir, "a.0.log") // replica number 0 of a single replica
 		}
 		data, err := os.ReadFile(fn)
 		if err != nil {
